@@ -7,6 +7,7 @@ RULE = docprop.RULE_PREFIX + ('oracle on every pair of consecutive copied words 
         '-> the output between them contains a blank line; class S (a counting blank between them) -> non-empty pure white space without blank line; class G (no counting blank) -> no blank line; a pair in which one side is the text of a simple generating macro (\\LaTeX, \\ref, \\gls ..) with a counting blank between: at least one blank in the output. '
         'non-trivial = a pair whose source separation contains a vanishing construct, comment or delimiter on a line of its own or next to a paragraph break '
         '(approximated: the document has a line-break separator AND a vanishing/pass-through/comment construct); distinct by source text')
+RULE += ' Additions: a paragraph break is also claimed across a skip region; comment followed by a blank-but-not-empty line.'
 ASSUMPTIONS = docprop.ASSUMPTIONS
 LEVEL_TEXT = ('Generated search over layouts; the separator class of every adjacent word pair is derived from the rendered source and compared with the white space found in the output.')
 LEVEL_NOTE = 'Trusted: the renderer/annotation code (docgen.py) and its classification of separators. Sampling only.'
